@@ -98,10 +98,37 @@ Theorem C19_cached_after_error_always : forall own c node l,
 Proof. exact second_call_after_error. Qed.
 Print Assumptions C19_cached_after_error_always.
 
+(* ---- histories of calls on ONE instance.  The own version list is an argument no call changes (findBiggestSameNumber
+   only reads its slices; the harness checks after every call that the instance's list is unchanged). *)
+
+(* frame: the answer about a peer no earlier call was about is the first-contact answer, whatever the history *)
+Theorem C19_history_fresh_peer : forall own c pre node e,
+  ~ In node (map fst pre) ->
+  fst (gos_history own c (pre ++ [(node, e)])) = fst (gos_history own c pre) ++ [fst (get_or_store own c node e)].
+Proof. exact history_fresh_peer. Qed.
+Print Assumptions C19_history_fresh_peer.
+
+(* the base version handed to a peer without a `pv` entry is own's first-listed version at every point of every history *)
+Theorem C19_history_base_stable : forall own v0 rest c pre node,
+  own = v0 :: rest -> c node = None -> ~ In node (map fst pre) ->
+  fst (gos_history own c (pre ++ [(node, PvMissing)])) = fst (gos_history own c pre) ++ [Ok v0].
+Proof. exact history_base_stable. Qed.
+Print Assumptions C19_history_base_stable.
+
+(* a peer asked about before (successfully) gets the same answer again, whatever happened in between *)
+Theorem C19_history_cached_peer : forall own c pre mid node e v,
+  fst (get_or_store own (snd (gos_history own c pre)) node e) = Ok v ->
+  ~ In node (map fst mid) ->
+  forall e', fst (gos_history own c (pre ++ (node, e) :: mid ++ [(node, e')])) =
+             fst (gos_history own c (pre ++ (node, e) :: mid)) ++ [Ok v].
+Proof. exact history_cached_peer. Qed.
+Print Assumptions C19_history_cached_peer.
+
 Example C19_nonvacuous :
   find_biggest_same [0; 1] [1; 2; 0] = (1, None) /\
   find_biggest_same [0; 1] [2; 3] = (0, Some E_NO_COMMON) /\
   find_biggest_same [0; 1] [] = (0, Some E_EMPTY_SLICE) /\
   negotiate [0; 1; 2] [2; 0] = Ok 2 /\
-  node_decode_utp [1] empty_cache 7 (PvList [0; 1]) (encode_utp_content 1 [x01; x02]) = Ok [x01; x02].
+  node_decode_utp [1] empty_cache 7 (PvList [0; 1]) (encode_utp_content 1 [x01; x02]) = Ok [x01; x02] /\
+  fst (gos_history [1; 0] empty_cache [(1, PvMissing); (2, PvList [0; 1]); (3, PvMissing)]) = [Ok 1; Ok 1; Ok 1].
 Proof. repeat split; vm_compute; reflexivity. Qed.
